@@ -132,7 +132,15 @@ def arg_strategy():
         st.booleans(),
         st.sampled_from(["", "T", "x y"]),
     )
-    child = st.one_of(child, child, tagchild)
+    rows = st.sampled_from(
+        [
+            {"k": "list", "t": "taglist", "kids": [{"k": "tag", "name": "tr", "ws": True, "attrs": [], "kids": []}, {"k": "text", "s": "r"}]},
+            {"k": "list", "t": "taglist", "kids": []},
+            {"k": "list", "t": "list", "kids": [{"k": "text", "s": "i"}, {"k": "tag", "name": "li", "ws": True, "attrs": [], "kids": []}]},
+            {"k": "list", "t": "tuple", "kids": [{"k": "text", "s": "u"}]},
+        ]
+    )
+    child = st.one_of(child, child, tagchild, rows)
     common = st.sampled_from(
         [["target", "_blank"], ["target", "_self"], ["rel", "noopener"], ["type", "text"], ["type", "submit"], ["name", "n"], ["value", ""], ["src", "s.png"], ["alt", ""], ["role", "button"],
          ["method", "post"], ["action", "/"], ["width", 10], ["height", "5"], ["loading", "lazy"], ["download", True], ["hidden", True], ["tabindex", -1], ["lang", "en"], ["dir", "rtl"], ["charset", "utf-8"],
@@ -141,10 +149,21 @@ def arg_strategy():
     pair = st.one_of(st.tuples(st.sampled_from(["id", "class_", "data_x", "x", "x_", "for_", "style", "href"]), st.one_of(gen.hot_text(2), st.sampled_from([True, False, None, 1, 2.5, {"html": "&h;"}]))), common.map(tuple))
     dict_only = st.sampled_from([["xlink:href", "#icon"], ["xml:lang", "en"], ["aria-label", "l"], ["data-x", "1"], ["@click", "f()"], ["class", "k"], ["for", "i"], ["href", "#a"]]).map(tuple)
     d = st.lists(st.one_of(pair, dict_only).map(list), max_size=3)
+    # keywords whose names are the same attribute after normalisation (they are merged, not overwritten)
+    colliding = st.builds(
+        lambda fam, a, b, rest: [[fam[0], a], [fam[1], b]] + [p for p in rest if p[0] not in fam],
+        st.sampled_from([["x", "x_"], ["class_", "class"], ["data_x", "data-x"], ["for_", "for"], ["style", "style_"], ["id", "id_"]]),
+        st.sampled_from(["a", "k:v;", "1"]),
+        st.sampled_from(["b", "m:n;", True, 2]),
+        st.lists(pair.map(list), max_size=1),
+    )
     return st.fixed_dictionaries(
         {
-            "args": st.lists(st.one_of(st.tuples(st.just("c"), child).map(list), st.tuples(st.just("d"), d).map(list)), max_size=4),
-            "kw": st.lists(pair.map(list), max_size=3, unique_by=lambda p: p[0]),
+            "args": st.one_of(
+                st.lists(st.one_of(st.tuples(st.just("c"), child).map(list), st.tuples(st.just("d"), d).map(list)), max_size=4),
+                st.tuples(st.tuples(st.just("c"), rows).map(list)).map(list),  # a lone container argument
+            ),
+            "kw": st.one_of(st.lists(pair.map(list), max_size=3, unique_by=lambda p: p[0]), st.lists(pair.map(list), max_size=3, unique_by=lambda p: p[0]), colliding),
             "ws": st.sampled_from([None, None, True, False]),
         }
     )
@@ -180,12 +199,25 @@ def body_args(case, note):
         check(got.get_html_string() == want.get_html_string(), f"{label}.{name}: rendering differs from the Tag constructor's")
         check(got.add_ws is ws, f"{label}.{name}: whitespace flag is {got.add_ws}, expected {ws} ({'default' if case['ws'] is None else 'explicit'})")
         check(got.name == name, f"{label}.{name}: element name is {got.name!r}")
+        # "creates its own element": containers that were passed in and the new element stay independent
+        conts = [a for a in a1 if isinstance(a, (list, h.TagList))]
+        if conts:
+            before = [S.snap(c) for c in conts]
+            got.append("own-child")
+            got.attrs["data-own"] = "1"
+            check([S.snap(c) for c in conts] == before, f"{label}.{name}: changing the new element changed a container that was passed as an argument")
+            kids_before = S.snap(got.children)
+            for c in conts:
+                c.append("appended-to-the-argument-later")
+            check(S.snap(got.children) == kids_before, f"{label}.{name}: appending to a container that was passed as an argument changed the element")
         n += 1
     has_child = any(k == "c" for k, _ in case["args"])
     has_attr = bool(case["kw"]) or any(k == "d" and p for k, p in case["args"])
     tagkids = [p for k, p in case["args"] if k == "c" and p["k"] == "tag"]
     note(has_child and has_attr, "explicit-ws" if case["ws"] is not None else "default-ws", "functions:%d" % n,
          "block-element-child" if any(p["ws"] for p in tagkids) else "",
+         "lone-container-argument" if len(case["args"]) == 1 and case["args"][0][0] == "c" and case["args"][0][1]["k"] == "list" else "",
+         "colliding-keywords-without-dict" if len({gen.norm_attr_name(k) for k, _ in case["kw"]}) < len(case["kw"]) and not any(k == "d" for k, _ in case["args"]) else "",
          "title/desc/caption-child-not-first" if any(k == "c" and p["k"] == "tag" and p["name"] in ("title", "desc", "caption", "legend", "summary") and i > 0 and any(k2 == "c" for k2, _ in case["args"][:i]) for i, (k, p) in enumerate(case["args"])) else "")
 
 
@@ -204,5 +236,5 @@ RULE = (
 
 CLAUSES = [
     Clause("catalogue", body_catalogue, source="enum", enum=enum_catalogue, shards_quick=2, shards_thorough=4, required=("mod:tags", "mod:svg", "mod:top", "inline", "block"), rule="every function"),
-    Clause("args", body_args, strategy=arg_strategy, quick=150, thorough=1500, shards_quick=4, required=("explicit-ws", "default-ws", "block-element-child", "title/desc/caption-child-not-first"), rule="see RULE"),
+    Clause("args", body_args, strategy=arg_strategy, quick=150, thorough=1500, shards_quick=4, required=("explicit-ws", "default-ws", "block-element-child", "title/desc/caption-child-not-first", "lone-container-argument", "colliding-keywords-without-dict"), rule="see RULE"),
 ]
